@@ -184,6 +184,33 @@ fn history<const MAX: usize>(rep: &mut Report, r: &mut Rng) {
     if !check_state(rep, &g, &shadow, &log, "after-load") {
         return;
     }
+    // a table that grew after it was loaded is loaded again with its new limit - also when the CPU already holds its
+    // address (single-step mode: `sgdt` reports the emulated GDTR that the emulated `lgdt` loaded)
+    if shadow.len() < MAX && MAX <= 9 {
+        trapemu::regs().emulate_sgdt = true;
+        let (_, ev1) = trapemu::trapped(|| {
+            trapemu::step_begin();
+            unsafe { g.load_unsafe() };
+            trapemu::step_end();
+        });
+        let grew = catch(|| g.append(Descriptor::UserSegment(DescriptorFlags::KERNEL_DATA.bits()))).is_ok();
+        if grew {
+            shadow.push(DescriptorFlags::KERNEL_DATA.bits());
+        }
+        let (_, ev2) = trapemu::trapped(|| {
+            trapemu::step_begin();
+            unsafe { g.load_unsafe() };
+            trapemu::step_end();
+        });
+        trapemu::regs().emulate_sgdt = false;
+        rep.eval();
+        let l1: Vec<&trapemu::Event> = ev1.iter().filter(|e| e.kind == K::Lgdt).collect();
+        let l2: Vec<&trapemu::Event> = ev2.iter().filter(|e| e.kind == K::Lgdt).collect();
+        if l1.len() != 1 || l2.len() != 1 || l2[0].n as usize != 8 * shadow.len() - 1 || l2[0].val != base {
+            rep.violation("load_unsafe|second-load-of-a-grown-table|CPU-not-given-the-new-limit", J::obj(vec![("max", J::U(MAX as u64)), ("used_now", J::U(shadow.len() as u64)), ("first_load", J::A(ev1.iter().map(|e| J::s(trapemu::fmt_event(e))).collect())), ("second_load", J::A(ev2.iter().map(|e| J::s(trapemu::fmt_event(e))).collect()))]));
+        }
+        rep.class(&format!("max={}|load-append-load", MAX));
+    }
     if rep.want_sample() {
         rep.sample(J::obj(vec![("max", J::U(MAX as u64)), ("ops", J::A(log.iter().take(8).cloned().collect())), ("final_entries", J::A(shadow.iter().take(10).map(|&x| J::hex(x)).collect())), ("limit", J::U(g.limit() as u64))]));
     }
